@@ -296,6 +296,11 @@ func (config *Config) GetKey(keyName string) (*KeyConfig, error) {
 		keyConf, ok = config.Keys[alias]
 		if !ok {
 			return nil, fmt.Errorf("Alias \"%s\" points to undefined key \"%s\"", keyName, alias)
+		} else if keyConf.Alias != "" {
+			// Callers look the returned key up again by its name, which must
+			// not follow a further alias to a key other than the one that
+			// was just authorized
+			return nil, fmt.Errorf("Alias \"%s\" points to \"%s\" which is itself an alias", keyName, alias)
 		}
 	}
 	if keyConf.Token == "" {
